@@ -88,16 +88,20 @@ DoRegenerate ==
        /\ hist' = Append(hist, last')
   /\ n' = n + 1 /\ UNCHANGED prog
 
-(* mh (inference/mcmc.py): regenerate, then accept iff log u < min(0, w); u is scripted as "acc" *)
+(* mh (inference/mcmc.py): regenerate, then accept iff log u < min(0, w); u is scripted as "acc".
+   The kernel reads the trace's recorded arguments; the harness first installs the proposal script into them with an
+   argument-only update (weight 0, choices unchanged - but a Cond's hidden branch takes over the visible values), which the
+   action therefore includes: base = update(cur, no constraints, same model arguments).                                  *)
 DoMH ==
   /\ "mh" \in OpKinds /\ cur # NoTrace /\ GF[prog].kind = "fn"   \* a vectorised top-level trace does not remember its Vmap
   /\ \E s \in SelsFor(prog) : \E scr \in Scripts(prog, SelectedLeaves(prog, s)) : \E acc \in {TRUE, FALSE} :
-       LET r == IRegen(prog, cur, s, cur.arg, scr, <<>>) IN
+       LET base == IUpd(prog, cur, NoC, cur.arg).tr
+           r == IRegen(prog, base, s, cur.arg, scr, <<>>) IN
        /\ (~acc => r.w < 0)          \* a rejection needs acceptance probability min(1, 2^w) < 1
-       /\ cur' = IF acc THEN r.tr ELSE cur
-       /\ prev' = cur
+       /\ cur' = IF acc THEN r.tr ELSE base
+       /\ prev' = base
        /\ last' = [op |-> "mh", arg |-> cur.arg, sel |-> s, scr |-> scr, drawn |-> SelectedLeaves(prog, s), w |-> r.w, acc |-> acc,
-                   prop |-> r.tr, exp |-> Obs(IF acc THEN r.tr ELSE cur), pexp |-> Obs(r.tr)]
+                   prop |-> r.tr, exp |-> Obs(IF acc THEN r.tr ELSE base), pexp |-> Obs(r.tr)]
        /\ hist' = Append(hist, last')
   /\ n' = n + 1 /\ UNCHANGED prog
 
@@ -195,6 +199,26 @@ RegenerateOK == last.op \in {"regenerate", "mh"} =>
    /\ (Sel = AllLeaves(prog) /\ Chks(new, <<>>) = Chks(prev, <<>>) => last.w = 0)
 (* C09 (mh): accept => proposed trace, reject => the input trace unchanged *)
 MHOK == last.op = "mh" => (IF last.acc THEN cur = last.prop ELSE cur = prev)
+(* C09: detailed balance of mh. With proposal = regenerate-from-prior and acceptance min(1, 2^w),
+      pi(x) q(x->x') a(x->x') = pi(x') q(x'->x) a(x'->x)
+   holds iff the weight is the change of the log-probabilities of the UNSELECTED visible leaves (then w_reverse = -w and
+   min(1,2^w) / min(1,2^-w) = 2^w = pi(x') q(x'->x) / (pi(x) q(x->x'))). This must also hold when the move switches the
+   branch of a Cond whose own choices are all unselected (observed) and equal in both branch traces: the mixture-indicator move. *)
+RECURSIVE Unsynced(_, _)
+Unsynced(t, path) == CASE t.k = "d" -> {}
+                       [] t.k = "f" -> UNION {Unsynced(t.sub[a], Append(path, a)) : a \in DOMAIN t.sub}
+                       [] t.k \in {"v", "s"} -> UNION {Unsynced(t.items[i], Append(path, Ix(i))) : i \in DOMAIN t.items}
+                       [] t.k = "c" -> (IF ChoicesOf(t.t) = ChoicesOf(t.f) THEN {} ELSE {path}) \cup Unsynced(IF t.chk = 1 THEN t.t ELSE t.f, path)
+Switched(a, b) == {c[1] : c \in (Chks(a, <<>>) \ Chks(b, <<>>)) \cup (Chks(b, <<>>) \ Chks(a, <<>>))}
+DetailedBalance == last.op \in {"regenerate", "mh"} =>
+   LET new == IF last.op = "mh" THEN last.prop ELSE cur
+       NewLeaves == LeafNL(prog, new.arg, ChoicesOf(new), <<>>)
+       Sel == last.drawn
+       sw == Switched(prev, new)
+       clean == /\ \A cp \in sw : (\A p \in Sel : ~IsPrefix(cp, p)) /\ cp \notin Unsynced(prev, <<>>)
+   IN (clean /\ PathsOf(NewLeaves) = PathsOf(PrevLeaves)) =>
+        /\ \A l \in NewLeaves : l.p \notin Sel => l.v = LeafVal(PrevLeaves, l.p)
+        /\ last.w = SumOver({l \in PrevLeaves : l.p \notin Sel}, LAMBDA l : l.nl) - SumOver({l \in NewLeaves : l.p \notin Sel}, LAMBDA l : l.nl)
 
 (* C05: observed addresses that were never selected or re-constrained keep their values; update weights telescope *)
 Touched(i) == UNION {IF hist[k].op \in {"update"} THEN hist[k].cpaths ELSE hist[k].drawn : k \in 2..i}
